@@ -32,7 +32,7 @@ type pathDone struct{}                // harness asked to stop the path normally
 
 func isEngineControl(p any) bool {
 	switch p.(type) {
-	case pruned, engineAbort, crashUnwind, pathDone, targetHang:
+	case pruned, engineAbort, crashUnwind, pathDone, targetHang, threadKilled:
 		return true
 	}
 	return false
